@@ -28,6 +28,28 @@ EQUALITY_HELPERS = {'strict_equal', 'compare_strict'}      # two-argument, symme
 CHUNK_RE = re.compile(r'^[APRaprc]*/[APRaprc]*$')
 
 
+MEMBERSHIP_PARAMS = {}     # function name -> positional indexes of parameters used only as the right operand of in / not in
+
+
+def find_membership_params(repo, prefix='nbdime.merging.'):
+    """Fill MEMBERSHIP_PARAMS from the module-level functions of the package: parameters whose every use is `x in <param>` / `x not in <param>`."""
+    MEMBERSHIP_PARAMS.clear()
+    for fid, fn in repo.functions.items():
+        if not fid.startswith(prefix) or '.' in fid.split(':', 1)[1]:
+            continue
+        for i, a in enumerate(fn.args.args):
+            uses = [n for n in ast.walk(fn) if isinstance(n, ast.Name) and n.id == a.arg and isinstance(n.ctx, ast.Load)]
+            if not uses:
+                continue
+            ok = True
+            for u in uses:
+                par = repo.parent(u)
+                if not (isinstance(par, ast.Compare) and len(par.ops) == 1 and isinstance(par.ops[0], (ast.In, ast.NotIn)) and par.comparators[0] is u):
+                    ok = False
+            if ok:
+                MEMBERSHIP_PARAMS.setdefault(fid.split(':', 1)[1], set()).add(i)
+
+
 def mirror_name(n):
     """Candidate mirrored identifier, or None."""
     if 'local' in n:
@@ -134,6 +156,11 @@ class Canon(ast.NodeTransformer):
         if isinstance(node.func, ast.Name) and node.func.id in EQUALITY_HELPERS and len(node.args) == 2 and not node.keywords:
             return self.visit(ast.Compare(left=node.args[0], ops=[ast.Eq()], comparators=[node.args[1]]))
         self.generic_visit(node)
+        # a literal collection handed to a parameter that the callee only ever tests membership in is a set: order does not matter
+        if isinstance(node.func, ast.Name) and node.func.id in MEMBERSHIP_PARAMS:
+            for i in MEMBERSHIP_PARAMS[node.func.id]:
+                if i < len(node.args) and isinstance(node.args[i], (ast.Tuple, ast.List, ast.Set)):
+                    node.args[i].elts = sorted(node.args[i].elts, key=ast.unparse)
         # all(f(t) for t in (a, b, c)) / any(...): the order of the literal collection iterated does not matter
         if isinstance(node.func, ast.Name) and node.func.id in ('all', 'any') and len(node.args) == 1 and isinstance(node.args[0], ast.GeneratorExp) and \
                 len(node.args[0].generators) == 1 and isinstance(node.args[0].generators[0].iter, (ast.Tuple, ast.List, ast.Set)):
